@@ -71,6 +71,7 @@ type Result struct {
 	Mismatches  []Mismatch             `json:"mismatches"`
 	Samples     []interface{}          `json:"samples"`
 	Counters    map[string]int         `json:"counters"`
+	SigCounts   map[string]int         `json:"sig_counts,omitempty"`
 	Extra       map[string]interface{} `json:"extra,omitempty"`
 }
 
@@ -79,7 +80,13 @@ func NewResult() *Result {
 }
 
 func (r *Result) Bad(c interface{}, sig interface{}, format string, a ...interface{}) {
-	if len(r.Mismatches) < 200 {
+	sk, _ := json.Marshal(sig)
+	if r.SigCounts == nil {
+		r.SigCounts = map[string]int{}
+	}
+	r.SigCounts[string(sk)]++
+	// keep the first few cases of every signature
+	if r.SigCounts[string(sk)] <= 4 && len(r.Mismatches) < 400 {
 		r.Mismatches = append(r.Mismatches, Mismatch{Case: c, What: fmt.Sprintf(format, a...), Sig: sig})
 	}
 	r.Counters["mismatches"]++
